@@ -21,6 +21,7 @@ CONSTANTS MaxBlocks, MaxTxs,
           WarmBlocks,    \* number of empty blocks executed before the exploration starts (2: the validator set is reported)
           MaxVals,       \* governance: maximum validator count (the genesis validators must fit)
           AllowEvidence, AllowAbsent, AllowNoProposer,
+          AllowRestart,  \* the process may be restarted at any block boundary
           KnownD8        \* TRUE: tolerate the clauses of known finding D8 (genesis validator changed in block 1)
 
 VARIABLES s, pre, mon, phase, ntx, ctr, vals, bad, g1changed
@@ -40,7 +41,7 @@ GenesisState ==
       accts |-> [a \in DOMAIN Accts |-> [bal |-> BAdd(PowerAmount(Accts[a]), <<500>>), nonce |-> 0, code |-> 0, name |-> "", url |-> ""]],
       delegs |-> delegs, frozen |-> <<>>, rewards |-> [x \in {} |-> 0], props |-> [x \in {} |-> 0], fprops |-> [x \in {} |-> 0],
       gov |-> Gov0, govLedger |-> [some |-> TRUE, v |-> Gov0], govPending |-> [some |-> FALSE],
-      vol |-> [lastVals |-> <<>>, allDelegs |-> [x \in {} |-> 0], limiter |-> [on |-> FALSE]],
+      vol |-> [lastVals |-> <<>>, allDelegs |-> [x \in {} |-> 0], limiter |-> [on |-> FALSE], rwdHash |-> "r", evmRoot |-> "r", evmHeight |-> 0],
       tree |-> [delegs |-> [x \in {} |-> 0], frozen |-> <<>>, props |-> [x \in {} |-> 0], fprops |-> [x \in {} |-> 0]],
       hist |-> [x \in {} |-> 0], docs |-> [x \in {} |-> 0], delivered |-> {}, proposer |-> "none"]
 
@@ -197,7 +198,15 @@ DoCommit ==
   /\ phase' = "idle"
   /\ UNCHANGED <<ntx, ctr, vals>>
 
-Next == DoBegin \/ DoDeliver \/ DoEnd \/ DoCommit
+\* process restart at a block boundary: everything that influences execution must be rebuilt (C07)
+DoRestart ==
+  /\ AllowRestart /\ phase = "idle" /\ s.lastH >= 1 /\ s.lastH < WarmBlocks + MaxBlocks
+  /\ LET r == Restart(s)
+         e == [ev |-> "Restart", resp |-> [h |-> r.resp.h, hash |-> mon.lastHash], panic |-> ""]
+     IN Judge(e, r.s)
+  /\ UNCHANGED <<phase, ntx, ctr, vals, g1changed>>
+
+Next == DoBegin \/ DoDeliver \/ DoEnd \/ DoCommit \/ DoRestart
 
 Spec == Init /\ [][Next]_mvars
 
